@@ -47,7 +47,9 @@ RecShort == Rec(1, 5, 0, 7, << >>)           \* length field below 6
 RecOverrun == Rec(1, 40, 0, 7, <<65>>)       \* length field beyond the data
 RecBadMT == Good(0, <<0, 5>>)                \* Message Type with unassigned code
 
-RecordClasses == <<RecMT, RecHost, RecBadHost, RecUnknown, RecVendor, RecHidden, RecShort, RecOverrun>>
+RecOverrun1 == Rec(1, 8, 0, 7, <<65>>)       \* length field one octet beyond the data
+
+RecordClasses == <<RecMT, RecHost, RecBadHost, RecUnknown, RecVendor, RecHidden, RecShort, RecOverrun, RecOverrun1>>
 
 \* all sequences over 1..n of length 0..k
 RECURSIVE SeqsUpTo(_, _)
